@@ -1,1 +1,294 @@
-(* C03 - to be filled *)
+(* C03 - Each segment starts at the VRAM address the document requests.
+   Only statements, each closed by [exact]; see Proofs/C03.v.  Link-level theorems hold for every
+   previous-pass environment [env]/[senv], object symbols [ext], kind of pass [final] and starting state. *)
+From Slinky Require Import Model.Types Model.Parse Model.Runtime Model.Style Model.Script Model.Writer Model.LdSem.
+From Slinky Require Import Spec.C17 Spec.C04 Spec.C03 Proofs.C18 Proofs.C17 Proofs.C04 Proofs.C03.
+From Coq Require Import ZArith.
+Local Open Scope string_scope.
+Local Open Scope Z_scope.
+
+(* ====================================================================== *)
+(* script level                                                            *)
+(* ====================================================================== *)
+
+(* C03_header: the address expression of a segment is the one its (single) address field asks for *)
+Theorem C03_header : forall sty seg,
+  at_most_one_addr seg -> AddrSpec sty seg (segment_addr sty seg).
+Proof. exact addr_spec. Qed.
+
+(* C03_at_most_one: an accepted segment sets at most one of fixed_vram, fixed_symbol, follows_segment,
+   vram_class; so does every segment of a parsed document *)
+Theorem C03_at_most_one : forall st s seg, parse_segment st s = Ok seg -> at_most_one_addr seg.
+Proof. exact parse_segment_at_most_one. Qed.
+
+Theorem C03_at_most_one_document : forall d doc, parse d = Ok doc -> Forall at_most_one_addr (doc_segments doc).
+Proof. exact parse_at_most_one. Qed.
+
+(* the address is on the allocatable header only: the headers of an included segment are
+   (.name, address, AT(name_ROM_START), loadable) and (.name.noload, no address, no AT, NOLOAD) *)
+Theorem C03_header_placement : forall rt stg cfg classes seg ws s ws',
+  add_segment rt stg cfg classes seg ws = Ok (s, ws') ->
+  headers s = (if should_emit rt (sg_conds seg) then segment_headers (linker_symbols_style stg) seg else []).
+Proof. exact header_placement. Qed.
+
+(* single-segment mode: ". = fixed_vram" once (when given), in the head, before any output section;
+   nothing after it sets "." by assignment and no header has an address *)
+Theorem C03_single_start : forall rt stg cfg classes seg ws s ws',
+  add_single_segment rt stg cfg classes seg ws = Ok (s, ws') ->
+  exists rest,
+    s = [SSections (single_head stg cfg seg ++ rest)] /\
+    filter sets_dot (single_head stg cfg seg) = single_start seg /\
+    headers (single_head stg cfg seg) = [] /\
+    existsb sets_dot rest = false /\
+    Forall (fun h => snd (fst (fst h)) = None) (headers rest).
+Proof. exact single_start_once. Qed.
+
+(* ====================================================================== *)
+(* link level                                                              *)
+(* ====================================================================== *)
+
+(* C03_outsec_start: an output section starts at the value of its address expression when it has one,
+   else at "." rounded up to the alignment its contents need; afterwards "." is its end *)
+Theorem C03_outsec_start : forall env senv ext final name addr at_ noload sub body st vma,
+  match addr with
+  | Some e => eval_expr env senv ext st (l_dot st) e
+  | None => Ok (align_up (l_dot st) (body_align (option_map Z.of_N sub) body (l_remaining st) 1))
+  end = Ok vma ->
+  sizes_ok st ->
+  let st' := exec_outsec env senv ext final name addr at_ noload sub body st in
+  exists o, l_secs st' = (l_secs st ++ [o])%list /\ os_name o = name /\ os_vma o = vma /\
+            os_noload o = noload /\ 0 <= os_size o /\ l_dot st' = os_vma o + os_size o /\ sizes_ok st'.
+Proof. exact outsec_start. Qed.
+
+(* when the address cannot be evaluated nothing is placed and the link reports it *)
+Theorem C03_outsec_failed : forall env senv ext final name e at_ noload sub body st err,
+  eval_expr env senv ext st (l_dot st) e = Err err ->
+  exec_outsec env senv ext final name (Some e) at_ noload sub body st = add_err (LForwardRef name) st.
+Proof. exact outsec_failed_some. Qed.
+
+(* C03_vram_symbol: X_VRAM = ADDR(.X) gets the address of the section .X (of this pass if already
+   placed, else of the previous pass) *)
+Theorem C03_vram_symbol : forall env senv ext final st x sec o,
+  x <> "." -> sec_lookup sec st senv = Some o ->
+  exec_top_stmt env senv ext final st (linker_symbol x (EAddr sec)) = set_sym x (os_vma o) false st.
+Proof. exact vram_symbol. Qed.
+
+(* single-segment mode: ". = fixed_vram" moves "." there; the sections that follow have no address,
+   so each starts at "." (C03_outsec_start), in list order *)
+Theorem C03_single_start_link : forall env senv ext final st p h r v,
+  exec_top_stmt env senv ext final st (SAssign p h r "." (EHex8 v)) = set_dot (Z.of_N v) st.
+Proof. exact set_dot_literal. Qed.
+
+(* the segment as a whole, for ARBITRARY section bodies and arbitrary "."-preserving statements
+   around the two output sections: where both sections are placed, "." at the end, VRAM_END,
+   VRAM_SIZE, VRAM *)
+Theorem C03_segment_vram_any_body :
+  forall env senv ext final stg seg cls a1 addr at1 sub body1 b1 a2 at2 sub2 body2 b2 st0,
+  let sty := linker_symbols_style stg in
+  let name := sg_name seg in
+  let VS := segment_vram_start sty name in
+  let VE := segment_vram_end sty name in
+  let VZ := segment_vram_size sty name in
+  let O1 := SOutSec (alloc_name seg) addr at1 false sub body1 in
+  let O2 := SOutSec (noload_name seg) None at2 true sub2 body2 in
+  let pre := (cls ++ seg_head stg seg ++ a1)%list in
+  let L := (pre ++ O1 :: b1 ++ [SBlank] ++ a2 ++ O2 :: b2 ++ [SBlank] ++ seg_foot stg seg)%list in
+  let stE := run env senv ext final pre st0 in
+  let st' := run env senv ext final L st0 in
+  forallb keeps_dot (cls ++ a1 ++ b1 ++ a2 ++ b2) = true ->
+  vram_names_distinct sty name L = true ->
+  ~ In (LForwardRef (alloc_name seg)) (l_errors st') ->
+  sizes_ok st0 ->
+  exists o1 o2 A2,
+    l_dot stE = align_up (l_dot st0) (align_z (segment_start_align seg)) /\
+    outsec_vma env senv ext addr sub body1 stE = Ok (os_vma o1) /\
+    l_secs st' = (l_secs st0 ++ [o1; o2])%list /\
+    os_name o1 = alloc_name seg /\ os_noload o1 = false /\ 0 <= os_size o1 /\
+    os_name o2 = noload_name seg /\ os_noload o2 = true /\ os_contents o2 = false /\ 0 <= os_size o2 /\
+    os_vma o2 = align_up (os_vma o1 + os_size o1) A2 /\ os_vma o1 + os_size o1 <= os_vma o2 /\
+    let ve := align_up (os_vma o2 + os_size o2) (align_z (segment_end_align seg)) in
+    l_dot st' = ve /\ val st' VE = Some ve /\
+    (forall v, val st' VS = Some v -> val st' VZ = Some (ve - v)) /\
+    (forall o, sec_lookup (alloc_name seg) st0 senv = Some o -> val st' VS = Some (os_vma o)).
+Proof. exact segment_vram_general. Qed.
+
+(* the same for what add_segment emits for an included segment; [stE] is the state in which the
+   address expression is evaluated *)
+Theorem C03_segment_vram : forall env senv ext final rt stg cfg classes seg ws s ws' st0,
+  add_segment rt stg cfg classes seg ws = Ok (s, ws') ->
+  should_emit rt (sg_conds seg) = true ->
+  let sty := linker_symbols_style stg in
+  let name := sg_name seg in
+  let st' := run env senv ext final s st0 in
+  vram_names_distinct sty name s = true ->
+  ~ In (LForwardRef (alloc_name seg)) (l_errors st') ->
+  sizes_ok st0 ->
+  exists cls ws1 body1 o1 o2 A2,
+    class_part stg classes seg ws = Ok (cls, ws1) /\
+    let stE := run env senv ext final (cls ++ seg_head stg seg ++ sections_kind_start sty cfg seg false) st0 in
+    l_dot stE = align_up (l_dot st0) (align_z (segment_start_align seg)) /\
+    outsec_vma env senv ext (segment_addr sty seg) (subalign seg) body1 stE = Ok (os_vma o1) /\
+    l_secs st' = (l_secs st0 ++ [o1; o2])%list /\
+    os_name o1 = alloc_name seg /\ os_noload o1 = false /\ 0 <= os_size o1 /\
+    os_name o2 = noload_name seg /\ os_noload o2 = true /\ os_contents o2 = false /\ 0 <= os_size o2 /\
+    os_vma o2 = align_up (os_vma o1 + os_size o1) A2 /\ os_vma o1 + os_size o1 <= os_vma o2 /\
+    let ve := align_up (os_vma o2 + os_size o2) (align_z (segment_end_align seg)) in
+    l_dot st' = ve /\ val st' (segment_vram_end sty name) = Some ve /\
+    (forall v, val st' (segment_vram_start sty name) = Some v ->
+               val st' (segment_vram_size sty name) = Some (ve - v)) /\
+    (forall o, sec_lookup (alloc_name seg) st0 senv = Some o ->
+               val st' (segment_vram_start sty name) = Some (os_vma o)).
+Proof. exact segment_vram. Qed.
+
+(* the statements executed before the address is evaluated assign only these names: every other
+   symbol (e.g. the VRAM_END of the followed segment) still has the value it had before the segment *)
+Theorem C03_prefix_frame : forall stg classes cfg seg ws cls ws1 x,
+  class_part stg classes seg ws = Ok (cls, ws1) ->
+  ~ In x (prefix_names stg cfg seg) ->
+  existsb (assigns x) (cls ++ seg_head stg seg ++ sections_kind_start (linker_symbols_style stg) cfg seg false) = false.
+Proof. exact prefix_frame. Qed.
+
+Theorem C03_lookup_frame : forall env senv ext final l st x,
+  existsb (assigns x) l = false ->
+  sym_lookup x (run env senv ext final l st) env ext = sym_lookup x st env ext.
+Proof. exact sym_lookup_frame. Qed.
+
+(* the start address, by kind of request: the literal fixed_vram; the value of the fixed_symbol text;
+   the VRAM_END of the followed segment; the start of the class; otherwise "." (which is the previous
+   VRAM_END, see C03_default_start_after) rounded up to what the contents need *)
+Theorem C03_requested_start : forall env senv ext sty seg sub body stE vma,
+  at_most_one_addr seg ->
+  outsec_vma env senv ext (segment_addr sty seg) sub body stE = Ok vma ->
+  (forall v, sg_fixed_vram seg = Some v -> vma = Z.of_N v) /\
+  (forall s, sg_fixed_symbol seg = Some s -> eval_raw env ext stE s = Ok vma) /\
+  (forall f, sg_follows_segment seg = Some f -> sym_lookup (segment_vram_end sty f) stE env ext = Some vma) /\
+  (forall c, sg_vram_class seg = Some c -> sym_lookup (vram_class_start sty c) stE env ext = Some vma) /\
+  (sg_fixed_vram seg = None -> sg_fixed_symbol seg = None -> sg_follows_segment seg = None ->
+   sg_vram_class seg = None ->
+   vma = align_up (l_dot stE) (body_align (option_map Z.of_N sub) body (l_remaining stE) 1)).
+Proof. exact requested_start. Qed.
+
+(* a fixed_symbol that is a plain symbol name evaluates to the address of that symbol *)
+Theorem C03_plain_symbol_value : forall env ext st s v,
+  defined_arg s = None -> split_on " " s = [s] -> parse_num s = None ->
+  sym_lookup s st env ext = Some v -> eval_raw env ext st s = Ok v.
+Proof. exact eval_raw_plain_symbol. Qed.
+
+Example ex_plain_symbol :
+  defined_arg "entrypoint" = None /\ split_on " " "entrypoint" = ["entrypoint"] /\ parse_num "entrypoint" = None.
+Proof. repeat split; reflexivity. Qed.
+
+(* C03_noload_follows *)
+Theorem C03_noload_follows : forall env senv ext final rt stg cfg classes seg ws s ws' st0,
+  add_segment rt stg cfg classes seg ws = Ok (s, ws') ->
+  should_emit rt (sg_conds seg) = true ->
+  let sty := linker_symbols_style stg in
+  let st' := run env senv ext final s st0 in
+  vram_names_distinct sty (sg_name seg) s = true ->
+  ~ In (LForwardRef (alloc_name seg)) (l_errors st') ->
+  sizes_ok st0 ->
+  exists o1 o2,
+    l_secs st' = (l_secs st0 ++ [o1; o2])%list /\
+    os_name o1 = alloc_name seg /\ os_name o2 = noload_name seg /\
+    os_noload o1 = false /\ os_noload o2 = true /\
+    0 <= os_size o1 /\ os_vma o1 + os_size o1 <= os_vma o2.
+Proof. exact noload_follows. Qed.
+
+(* C03_vram_end *)
+Theorem C03_vram_end : forall env senv ext final rt stg cfg classes seg ws s ws' st0,
+  add_segment rt stg cfg classes seg ws = Ok (s, ws') ->
+  should_emit rt (sg_conds seg) = true ->
+  let sty := linker_symbols_style stg in
+  let name := sg_name seg in
+  let st' := run env senv ext final s st0 in
+  vram_names_distinct sty name s = true ->
+  ~ In (LForwardRef (alloc_name seg)) (l_errors st') ->
+  sizes_ok st0 ->
+  exists o1 o2,
+    l_secs st' = (l_secs st0 ++ [o1; o2])%list /\ os_name o2 = noload_name seg /\
+    let ve := align_up (os_vma o2 + os_size o2) (align_z (segment_end_align seg)) in
+    l_dot st' = ve /\ val st' (segment_vram_end sty name) = Some ve /\
+    (forall v, val st' (segment_vram_start sty name) = Some v ->
+               val st' (segment_vram_size sty name) = Some (ve - v)).
+Proof. exact vram_end. Qed.
+
+(* C03_default_start *)
+Theorem C03_default_start : forall env senv ext final rt stg cfg classes seg ws s ws' st0,
+  add_segment rt stg cfg classes seg ws = Ok (s, ws') ->
+  should_emit rt (sg_conds seg) = true ->
+  sg_fixed_vram seg = None -> sg_fixed_symbol seg = None -> sg_follows_segment seg = None ->
+  sg_vram_class seg = None ->
+  let sty := linker_symbols_style stg in
+  let st' := run env senv ext final s st0 in
+  vram_names_distinct sty (sg_name seg) s = true ->
+  ~ In (LForwardRef (alloc_name seg)) (l_errors st') ->
+  sizes_ok st0 ->
+  exists o1 o2 A,
+    l_secs st' = (l_secs st0 ++ [o1; o2])%list /\ os_name o1 = alloc_name seg /\
+    os_vma o1 = align_up (align_up (l_dot st0) (align_z (segment_start_align seg))) A.
+Proof. exact default_start. Qed.
+
+(* ... and "." before the segment is the VRAM_END of the segment emitted just before it *)
+Theorem C03_default_start_after : forall env senv ext final rt stg cfg classes a b ws sa ws1 sb ws2 st0,
+  add_segment rt stg cfg classes a ws = Ok (sa, ws1) ->
+  add_segment rt stg cfg classes b ws1 = Ok (sb, ws2) ->
+  should_emit rt (sg_conds a) = true -> should_emit rt (sg_conds b) = true ->
+  sg_fixed_vram b = None -> sg_fixed_symbol b = None -> sg_follows_segment b = None -> sg_vram_class b = None ->
+  let sty := linker_symbols_style stg in
+  let st1 := run env senv ext final sa st0 in
+  let st2 := run env senv ext final (sa ++ sb) st0 in
+  vram_names_distinct sty (sg_name a) sa = true ->
+  vram_names_distinct sty (sg_name b) sb = true ->
+  (forall n, ~ In (LForwardRef n) (l_errors st2)) ->
+  sizes_ok st0 ->
+  exists ve oa1 oa2 ob1 ob2 A,
+    val st1 (segment_vram_end sty (sg_name a)) = Some ve /\ l_dot st1 = ve /\
+    l_secs st2 = (l_secs st0 ++ [oa1; oa2; ob1; ob2])%list /\
+    os_name ob1 = alloc_name b /\
+    os_vma ob1 = align_up (align_up ve (align_z (segment_start_align b))) A.
+Proof. exact default_start_after. Qed.
+
+(* ====================================================================== *)
+(* examples                                                                *)
+(* ====================================================================== *)
+
+Example ex_at_most_one : Forall at_most_one_addr (doc_segments ex_doc).
+Proof. unfold at_most_one_addr. vm_compute. repeat constructor. Qed.
+
+Example ex_vram_names_distinct :
+  forallb (fun seg => vram_names_distinct Splat (sg_name seg) ex_sections_body)
+          (included ex_rt (doc_segments ex_doc)) = true.
+Proof. vm_compute. reflexivity. Qed.
+
+(* a full link of the sample script: boot has no address request and starts at 0, its noload part
+   follows its allocatable part (68 rounded up to the 8 that .bss needs), boot_VRAM_END is the end of
+   the noload part; ovl_a starts at the start of its class *)
+Example ex_link_vram :
+  let st := layout ex_script ex_universe [("main", 5)] in
+  l_errors st = [] /\
+  map (fun o => (os_name o, os_vma o, os_size o)) (firstn 4 (l_secs st)) =
+  [(".boot", 0, 68); (".boot.noload", 72, 100); (".ovl_a", 2148532224, 24); (".ovl_a.noload", 2148532248, 8)] /\
+  val st "boot_VRAM" = Some 0 /\ val st "boot_VRAM_END" = Some 172 /\ val st "boot_VRAM_SIZE" = Some 172 /\
+  val st "overlay_VRAM_CLASS_START" = Some 2148532224 /\ val st "ovl_a_VRAM" = Some 2148532224 /\
+  val st "ovl_a_VRAM_END" = Some 2148532256.
+Proof. vm_compute. repeat split; reflexivity. Qed.
+
+Print Assumptions C03_header.
+Print Assumptions C03_at_most_one.
+Print Assumptions C03_at_most_one_document.
+Print Assumptions C03_header_placement.
+Print Assumptions C03_single_start.
+Print Assumptions C03_outsec_start.
+Print Assumptions C03_outsec_failed.
+Print Assumptions C03_vram_symbol.
+Print Assumptions C03_single_start_link.
+Print Assumptions C03_segment_vram_any_body.
+Print Assumptions C03_segment_vram.
+Print Assumptions C03_prefix_frame.
+Print Assumptions C03_lookup_frame.
+Print Assumptions C03_requested_start.
+Print Assumptions C03_plain_symbol_value.
+Print Assumptions C03_noload_follows.
+Print Assumptions C03_vram_end.
+Print Assumptions C03_default_start.
+Print Assumptions C03_default_start_after.
